@@ -8,6 +8,7 @@ mod handles;
 mod locks;
 mod monitor;
 mod prog;
+mod races;
 mod val;
 
 use loom::rt;
@@ -16,7 +17,7 @@ use std::io::Write;
 
 fn usage() -> ! {
   eprintln!(
-    "usage:\n  chanh gen --seed S --cases N [--tier quick|thorough] [--flavours a,b] [--mode seq|conc|async] [--jobs J]\n  chanh run <file>\n  chanh dfs <casefile> [--preempt K] [--max-runs N] [--all]\n  chanh demo"
+    "usage:\n  chanh gen --seed S --cases N [--tier quick|thorough] [--flavours a,b] [--mode seq|conc|async] [--jobs J]\n  chanh run <file>\n  chanh dfs <casefile> [--preempt K] [--max-runs N] [--all]\n  chanh races --seed S [--tier quick|thorough] [--flavours a,b] [--sample N] [--max-runs M] [--core-runs M] [--list]\n  chanh demo"
   );
   std::process::exit(2)
 }
@@ -152,6 +153,7 @@ fn main() {
     }
     "gen" | "worker" => gen::main(&args[1..]),
     "dfs" => dfs::main(&args[2..]),
+    "races" | "races-worker" => races::main(&args[1..]),
     "demo" => gen::demo(),
     _ => usage(),
   }
